@@ -584,6 +584,7 @@ class Oracle(object):
         st = res.status
         completed = st == 'ok' and not self.paused_only()
         self._c05()
+        self._c01_recorded()
         self._c07_overrate()
         self._c08()
         self._c03_c06()
@@ -650,6 +651,8 @@ class Oracle(object):
                              prov=sim.scheduler.provision_ingest)
             self.viol('C05', 'bound_exceeded', 'not finished at bound %s; observations: %s; %s' % (
                 res.bound, where, res.stuck), site=sig)
+        elif res.status == 'hang':
+            self.viol('C05', 'hang', '%s in %s (%s): %s' % res.exc, site=res.exc[1])
         elif res.status == 'exc':
             self.viol('C05', 'raised', '%s in %s (%s): %s' % res.exc, site='%s@%s' % (res.exc[0], res.exc[1]))
 
@@ -1176,6 +1179,29 @@ class Oracle(object):
         for (o, a, rs, e, t) in rows:
             if o not in known:
                 self.viol('C13', 'unknown_observation_in_log', o)
+
+    # ..................................................... C01 (recorded times)
+    def _c01_recorded(self):
+        # Recorded [ast, aft) windows on one machine may touch by at most one timestep: the shipped
+        # poll order releases a machine at aft-1 for runtimes >= 3 (DESIGN C01).  Anything beyond
+        # that means a machine was handed on while its task was, by its own record, still executing.
+        bym = {}
+        for e in self.execs:
+            t = e['task']
+            if e['exit'] is None or t.aft == -1 or t.ast == -1:
+                continue
+            bym.setdefault(e['machine'], []).append((t.ast, t.aft, e['tid']))
+        for m, lst in bym.items():
+            lst.sort()
+            for i in range(len(lst)):
+                for j in range(i + 1, len(lst)):
+                    a, b = lst[i], lst[j]
+                    if b[0] >= a[1]:
+                        break
+                    ov = min(a[1], b[1]) - b[0]
+                    if ov > 1 + EPS:
+                        self.viol('C01', 'recorded_executions_overlap', '%s: %s [%s,%s) and %s [%s,%s) overlap by %s steps' % (
+                            m, a[2], a[0], a[1], b[2], b[0], b[1], ov))
 
     def _probes(self):
         res = self.res
